@@ -268,6 +268,20 @@ func genCorruptions(r *core.Rand, e *kmodel.Engine) []*corruption {
 				}})
 		}
 	}
+	// the whole bucket of the set index over roles is gone: every (role, holder) pair is missing from it
+	{
+		var needles [][]string
+		for _, id := range emps {
+			roles, _ := m.Ents[kmodel.Emps][id].V["roles"].([]string)
+			for _, role := range kmodel.NormSet(roles) {
+				needles = append(needles, []string{"roles", role, id})
+			}
+		}
+		if len(needles) > 0 {
+			add(&corruption{Class: "set-index-bucket-missing", Desc: fmt.Sprintf("delete the emps.roles index bucket (%d entries)", len(needles)), Needles: needles,
+				apply: func(tx *bbolt.Tx) error { return bpath(tx, "stores", "indexes", "emps").DeleteBucket([]byte("roles")) }})
+		}
+	}
 	// the whole bucket of the (nullable) unique index over nick is gone: every holder of a nick is missing from it
 	{
 		var needles [][]string
@@ -449,7 +463,7 @@ func init() {
 		ID:    "C09",
 		Level: "exploration",
 		Rule: "consistent states reached through the API (random histories over schema K) must produce zero reports in check-only mode (read-only and writable transaction; on every third case also from four goroutines at once, each in its own read transaction) and in fix mode; then a committed raw-write transaction injects a random subset (1-6) of " +
-			"corruptions from 25 classes (unique index missing / dangling / wrong-target / stale entry / the whole index bucket absent; set index missing entry / missing value key / dangling / non-holder entry / empty bucket; fk missing back-reference (one key, or the whole bucket absent) / dangling / non-matching back-reference, dangling reference nullable or not; " +
+			"corruptions from 26 classes (unique index missing / dangling / wrong-target / stale entry / the whole index bucket absent; set index missing entry / missing value key / dangling / non-holder entry / empty bucket / the whole index bucket absent; fk missing back-reference (one key, or the whole bucket absent) / dangling / non-matching back-reference, dangling reference nullable or not; " +
 			"links one-sided either side / dangling; duplicate unique values (with and without an index entry for the value); null in a non-nullable unique field, fk-index field and fk-constraint field in three stored spellings). Oracle: every injected inconsistency is covered by a report naming its value and id(s), in View and Update check-only runs, which leave the whole-file dump unchanged and do not panic or fail; " +
 			"one fix pass then leaves only the predicted unfixable reports on re-check and (when none is unfixable) a structural-monitor-clean database equal to the model. Every fifth case runs the fix pass inside the very transaction that damaged the indexes (cursors over buckets already written to in the transaction); dangling links, dangling index entries and dangling back-references come in runs of one to four neighbours, also next to a one-sided link of the same entity (whose repair, made from the other store, writes to the bucket the dangling links are then removed from). Soundness is also checked on a model-free schema: one parent with two sibling child stores, the second extended with a NON-nullable unique index, six ids so that runs of neighbours without data in it occur; after every operation whose raw scan finds the indexes mirroring the entities the check-only run (both transaction kinds) must report nothing and change nothing. non-trivial = distinct corruption-class subsets of size >= 2",
 		Assumptions: []string{"report matching is by mention of the index/field name, value and ids (wording not judged); extra reports on a corrupted database are not judged", "ref-counted link collections are not part of CheckIntegrity (not injected)"},
@@ -463,7 +477,7 @@ func init() {
 		Promises: func(core.Tier) map[string][]string {
 			return map[string][]string{"class": {"unique-missing", "unique-wrong-target", "unique-stale-value", "unique-dangling-entry", "set-missing-entry", "set-missing-value-key", "set-extra-entry-dangling",
 				"set-extra-entry-existing", "set-empty-value-bucket", "fk-missing-backref", "fk-extra-backref-dangling", "fk-extra-backref-nonmatching", "fk-dangling-dept", "fk-dangling-boss",
-				"link-one-sided-emp-side-removed", "link-one-sided-dept-side-removed", "link-dangling", "duplicate-unique-value", "null-in-non-nullable-unique", "null-in-non-nullable-fk-index", "null-in-non-nullable-fk-constraint", "fk-missing-backref-bucket", "unique-index-bucket-missing", "duplicate-unique-value-unindexed"}}
+				"link-one-sided-emp-side-removed", "link-one-sided-dept-side-removed", "link-dangling", "duplicate-unique-value", "null-in-non-nullable-unique", "null-in-non-nullable-fk-index", "null-in-non-nullable-fk-constraint", "fk-missing-backref-bucket", "unique-index-bucket-missing", "duplicate-unique-value-unindexed", "set-index-bucket-missing"}}
 		},
 		MinCounters: func(core.Tier) map[string]int64 {
 			return map[string]int64{"consistent_states_checked": 300, "corrupted_states": 300, "fix_converged_clean": 100, "fix_runs_inside_the_damaging_transaction": 50, "sibling_consistent_states_checked": 500, "extended_store_checked_over_a_run_of_parent_only_neighbours": 50}
@@ -641,6 +655,19 @@ func runC09(c *core.Ctx, idx int) {
 		entryClass := cand.Class == "set-missing-entry" || cand.Class == "set-extra-entry-dangling"
 		if (entryClass && usedClass["fam:roles"]) || (fam == "roles" && classCount["set-missing-entry"]+classCount["set-extra-entry-dangling"] > 0) {
 			continue // whole-key corruptions and per-entry corruptions of the set index overwrite each other
+		}
+		// the whole set index bucket going away wipes every other corruption of that index: not combined with them
+		if strings.HasPrefix(cand.Class, "set-") && cand.Class != "set-index-bucket-missing" && usedClass["set-index-bucket-missing"] {
+			continue
+		}
+		if cand.Class == "set-index-bucket-missing" {
+			clash := false
+			for cl := range usedClass {
+				clash = clash || (strings.HasPrefix(cl, "set-") && usedClass[cl])
+			}
+			if clash {
+				continue
+			}
 		}
 		usedClass[cand.Class] = true
 		classCount[cand.Class]++
